@@ -236,7 +236,7 @@ Section Spec.
       match find_type parent (s_types S) with
       | Some td =>
         match td_kind td with
-        | KObject | KInterface =>
+        | KObject =>
           match find_field fname (td_fields td) with
           | Some fd => Some fd
           | None =>
@@ -246,6 +246,7 @@ Section Spec.
               else None
             else None
           end
+        | KInterface => find_field fname (td_fields td)
         | _ => None
         end
       | None => None
